@@ -1311,6 +1311,7 @@ void mmd_assign_ambidextrous_tokens_in_block(mmd_engine * e, token * block, size
 
 	size_t offset;		// Temp variable for use below
 	size_t lead_count, lag_count, pre_count, post_count;
+	size_t run_left = 0, run_right = 0;		// Ends of the run of '*' / '_' last looked at (run_right == 0: none yet)
 
 	token * t = block->child;
 	token * new;
@@ -1383,12 +1384,24 @@ void mmd_assign_ambidextrous_tokens_in_block(mmd_engine * e, token * block, size
 				break;
 
 			case STAR:
-				// Look left and skip over neighboring '*' characters
-				offset = t->start;
+				// Look left and right past the neighboring '*' / '_' characters.
+				// Every delimiter of one run gets the same two answers, so they are
+				// found once per run (doing it per delimiter is quadratic in the run)
+				if (!(run_right && run_left < t->start && t->start < run_right)) {
+					run_left = t->start;
 
-				while ((offset != 0) && ((str[offset] == '*') || (str[offset] == '_'))) {
-					offset--;
+					while ((run_left != 0) && ((str[run_left] == '*') || (str[run_left] == '_'))) {
+						run_left--;
+					}
+
+					run_right = t->start + 1;
+
+					while ((str[run_right] == '*') || (str[run_right] == '_')) {
+						run_right++;
+					}
 				}
+
+				offset = run_left;
 
 				// We can only close if there is something to left besides whitespace
 				if ((offset == 0) || (char_is_whitespace_or_line_ending(str[offset]))) {
@@ -1396,12 +1409,7 @@ void mmd_assign_ambidextrous_tokens_in_block(mmd_engine * e, token * block, size
 					t->can_close = 0;
 				}
 
-				// Look right and skip over neighboring '*' characters
-				offset = t->start + 1;
-
-				while ((str[offset] == '*') || (str[offset] == '_')) {
-					offset++;
-				}
+				offset = run_right;
 
 				// We can only open if there is something to right besides whitespace/punctuation
 				if (char_is_whitespace_or_line_ending(str[offset])) {
@@ -1502,12 +1510,22 @@ void mmd_assign_ambidextrous_tokens_in_block(mmd_engine * e, token * block, size
 				break;
 
 			case UL:
-				// Look left and skip over neighboring '_' characters
-				offset = t->start;
+				// Look left and right past the neighboring '_' / '*' characters (once per run, see STAR)
+				if (!(run_right && run_left < t->start && t->start < run_right)) {
+					run_left = t->start;
 
-				while ((offset != 0) && ((str[offset] == '_') || (str[offset] == '*'))) {
-					offset--;
+					while ((run_left != 0) && ((str[run_left] == '_') || (str[run_left] == '*'))) {
+						run_left--;
+					}
+
+					run_right = t->start + 1;
+
+					while ((str[run_right] == '*') || (str[run_right] == '_')) {
+						run_right++;
+					}
 				}
+
+				offset = run_left;
 
 				if ((offset == 0) || (char_is_whitespace_or_line_ending(str[offset]))) {
 					// Whitespace to left, so can't close
@@ -1520,12 +1538,7 @@ void mmd_assign_ambidextrous_tokens_in_block(mmd_engine * e, token * block, size
 					t->can_open = 0;
 				}
 
-				// Look right and skip over neighboring '_' characters
-				offset = t->start + 1;
-
-				while ((str[offset] == '*') || (str[offset] == '_')) {
-					offset++;
-				}
+				offset = run_right;
 
 				if (char_is_whitespace_or_line_ending(str[offset])) {
 					// Whitespace to right, so can't open
